@@ -362,7 +362,7 @@ fn seqs<T: Clone>(alphabet: &[T], lo: usize, hi: usize) -> Vec<Vec<T>> {
 /// 0..=2 inputs and 1..=2 outputs drawn from the values, every in-place flag pattern
 /// chosen by a counter, every subset of values as supplied inputs and as requested
 /// outputs.  `stride` > 1 samples every stride-th graph (offset by the seed).
-fn exhaustive_two_ops(seed: u64, stride: usize, dedup: bool) {
+fn exhaustive_two_ops(seed: u64, stride: usize, variant_every: usize, dedup: bool) {
     let vals: Vec<u32> = vec![0, 1, 2];
     let in_seqs = seqs(&vals, 0, 2);
     let out_seqs = seqs(&vals, 1, 2);
@@ -398,6 +398,44 @@ fn exhaustive_two_ops(seed: u64, stride: usize, dedup: bool) {
                         for outs in &subs {
                             let rq = Req { am: false, ca: true, ins: ins.clone(), outs: outs.clone() };
                             one(&gd, &g, &rq, dedup, &Feat { cyclic_hint: false });
+                        }
+                    }
+                    // Variant of the same graph with graph-level captures (a non-empty
+                    // subset of the values), an operator capture on one operator, and all
+                    // four (allow_missing, captures_available) combinations, again for
+                    // every input/output subset.  Every `variant_every`-th graph.
+                    if flags % variant_every != 0 {
+                        continue;
+                    }
+                    let k = flags / variant_every;
+                    let gcaps: Vec<u32> = subs[1 + k % 7].clone();
+                    let opcap = ((k / 7) % 4) as u32; // 3 = no operator capture
+                    let which = (k / 28) % 2;
+                    let mkc = |i: &Vec<u32>, o: &Vec<u32>, ip: bool, cap: Option<u32>| NodeD::O {
+                        ins: i.iter().map(|&x| Some(x)).collect(),
+                        outs: o.iter().map(|&x| Some(x)).collect(),
+                        caps: cap.into_iter().collect(),
+                        ip: ip && cap.is_none(),
+                    };
+                    let cap = if opcap < 3 { Some(opcap) } else { None };
+                    let gd = GraphD {
+                        nodes: vec![
+                            NodeD::V,
+                            NodeD::V,
+                            NodeD::V,
+                            mkc(i1, o1, flags & 1 != 0, if which == 0 { cap } else { None }),
+                            mkc(i2, o2, flags & 2 != 0, if which == 1 { cap } else { None }),
+                        ],
+                        caps: gcaps,
+                    };
+                    let g = gd.build();
+                    for (am, ca) in [(false, false), (true, true), (true, false), (false, true)] {
+                        for ins in &subs {
+                            for outs in &subs {
+                                let rq = Req { am, ca, ins: ins.clone(), outs: outs.clone() };
+                                with_out(|o| o.bucket("exhaustive_variant_caps_options"));
+                                one(&gd, &g, &rq, dedup, &Feat { cyclic_hint: false });
+                            }
                         }
                     }
                 }
@@ -445,14 +483,21 @@ fn exhaustive_three_ops(seed: u64, stride: usize, dedup: bool) {
                         mk(b, flags & 2 != 0),
                         mk(c, flags & 4 != 0),
                     ],
-                    caps: vec![],
+                    // every other graph captures one of the four values from the parent scope
+                    caps: if flags % 2 == 1 { vec![((flags / 2) % 4) as u32] } else { vec![] },
                 };
                 let g = gd.build();
                 // a sample of 8 request pairs per graph, rotating with the counter
                 for k in 0..8 {
                     let ins = &subs[(flags * 7 + k * 5) % subs.len()];
                     let outs = &subs[(flags * 3 + k * 11 + 1) % subs.len()];
-                    let rq = Req { am: false, ca: true, ins: ins.clone(), outs: outs.clone() };
+                    // requests 0..3 with the default options, 4..7 rotate through the others
+                    let (am, ca) = match k {
+                        0..=3 => (false, true),
+                        4 | 5 => (true, flags % 2 == 0),
+                        _ => (false, false),
+                    };
+                    let rq = Req { am, ca, ins: ins.clone(), outs: outs.clone() };
                     one(&gd, &g, &rq, dedup, &Feat { cyclic_hint: false });
                 }
             }
@@ -650,7 +695,64 @@ fn random_request(rng: &mut Rng, gd: &GraphD) -> Req {
     Req { am: rng.chance(1, 7), ca: rng.chance(3, 4), ins, outs }
 }
 
+/// Child mode (`C03_CHAIN=<n>`): build a linear chain of `n` single-input operators
+/// `v0 -> op -> v1 -> op -> ... -> vn` through the real API, plan `v0 |- vn` on a thread
+/// with the given stack size (`C03_STACK_KB`, default: the main thread), print the result.
+fn chain_child(n: usize) {
+    let job = move || {
+        let mut g = Graph::new();
+        let mut prev = g.add_value(Some("v0"), None, None);
+        let first = prev;
+        for i in 0..n {
+            let next = g.add_value(Some(&format!("v{}", i + 1)), None, None);
+            g.add_op(None, op_shape(), &[Some(prev)], &[Some(next)]);
+            prev = next;
+        }
+        let plan = g.execution_plan(&[first], &[prev], PlanOptions::default());
+        match plan {
+            Ok(p) => {
+                // independent check: the chain must be planned front to back
+                let sorted = p.windows(2).all(|w| w[0].as_u32() < w[1].as_u32());
+                println!("ok len={} ordered={}", p.len(), sorted as u8);
+            }
+            Err(e) => println!("{}", classify(&format!("{e}"))),
+        }
+    };
+    match std::env::var("C03_STACK_KB").ok().and_then(|s| s.parse::<usize>().ok()) {
+        Some(kb) => std::thread::Builder::new()
+            .stack_size(kb * 1024)
+            .spawn(job)
+            .unwrap()
+            .join()
+            .unwrap(),
+        None => job(),
+    }
+}
+
+/// Run the deep-chain probe in a child process (a stack overflow aborts the process and
+/// cannot be caught in-process).  Returns the child's answer or `crash <status>`.
+fn chain_probe(n: usize, stack_kb: Option<usize>) -> String {
+    let exe = std::env::current_exe().unwrap();
+    let mut cmd = std::process::Command::new(exe);
+    cmd.env("C03_CHAIN", n.to_string());
+    if let Some(kb) = stack_kb {
+        cmd.env("C03_STACK_KB", kb.to_string());
+    }
+    match cmd.output() {
+        Ok(o) if o.status.success() => String::from_utf8_lossy(&o.stdout).trim().to_string(),
+        Ok(o) => {
+            use std::os::unix::process::ExitStatusExt;
+            format!("crash signal={:?} code={:?}", o.status.signal(), o.status.code())
+        }
+        Err(e) => format!("spawn-failed {e}"),
+    }
+}
+
 fn main() {
+    if let Ok(n) = std::env::var("C03_CHAIN") {
+        chain_child(n.parse().unwrap());
+        return;
+    }
     let args = hcommon::parse_args();
     hcommon::quiet_panics();
     run(&args)
@@ -693,12 +795,37 @@ fn run(args: &Args) {
         one(&gd, &g, &rq, dedup, &Feat { cyclic_hint: true });
     }
 
+    // (a') very deep dependency chains, planned in a child process (a call-stack overflow
+    // aborts the process).  The Lean model is not asked (`#` lines): its answer for a chain
+    // is known (T3/T4: the unique topological order) and is checked here directly.
+    let mut probes: Vec<(usize, Option<usize>)> = vec![(200_000, None), (50_000, Some(2048))];
+    if args.thorough {
+        probes.push((1_000_000, Some(2048)));
+    }
+    for (n, stack_kb) in probes {
+        let ans = chain_probe(n, stack_kb);
+        let req = format!(
+            "# chain ops={n} stack={}",
+            stack_kb.map(|k| format!("{k}KB-thread")).unwrap_or("main-thread".into())
+        );
+        let want = format!("ok len={n} ordered=1");
+        let fail = if ans == want {
+            None
+        } else {
+            Some(format!("planning a valid linear chain of {n} operators did not return the plan: {ans}"))
+        };
+        with_out(|out| {
+            out.bucket("deep_chain_probe");
+            out.case(&req, &ans, fail.as_deref(), true);
+        });
+    }
+
     // (b) exhaustive small scopes
     if args.thorough {
-        exhaustive_two_ops(args.seed, 1, dedup);
+        exhaustive_two_ops(args.seed, 1, 6, dedup);
         exhaustive_three_ops(args.seed, 40, dedup);
     } else {
-        exhaustive_two_ops(args.seed, 24, dedup);
+        exhaustive_two_ops(args.seed, 24, 4, dedup);
         exhaustive_three_ops(args.seed, 1500, dedup);
     }
 
